@@ -49,6 +49,10 @@ ROWS = {
    technique='property-based testing: generated identities x release policies x SP metadata declarations (single answers and sequences on one long-lived IdP), subset oracle against a permissive reference policy model; output read with ElementTree',
    text='Every (attribute, value) the IdP/AA puts into an authentication or attribute response must be in the identity and allowed by the most permissive reading of the documented policy (restrictions by name/regex, entity categories, declared required/optional attributes and values); error responses must carry no attributes.',
    note='Unsigned responses (no tool); reference model harness/models/policy.py; the oracle is a subset test and cannot fire on releasing less.'),
+ 'C09': dict(level='exploration', design='3/C09',
+   technique='property-based testing: generated SP metadata layouts x hostile request variants (sequences on one IdP), oracle = reference model of the metadata the documents were rendered from',
+   text='For generated metadata with look-alike endpoint URLs, indexes and bindings, every (binding, destination) Server.response_args derives must be registered for the issuer, service and binding; a supplied consumer URL or index is honoured only if registered, unknown issuers never get a destination.',
+   note='Requests built as objects; metadata rendered by harness templates; no tool involved.'),
 }
 NOT_YET = {}
 def main():
